@@ -1072,6 +1072,7 @@ Definition simple_atom (st : stmt) : bool :=
   | SAssign y v => plain_rval mt v && ok_dest (DVar y) v
   | SUnits _ | SWait => true
   | SPrint (Some v) | SPrintln (Some v) => plain_rval mt v
+  | SPrint None | SPrintln None | SDefineMacro _ _ => true     (* nothing / a line break / a constant: no value to compute *)
   | SSet ops | SOn ops | SOff ops => simple_ops mt ops
   | _ => false
   end.
@@ -1098,8 +1099,21 @@ Proof.
   - exact (sim_SWait rt mt im ss s ss' fuel Hsim Hc He).
   - apply andb_true_iff in Hs. destruct Hs as [Hp Hd].
     exact (sim_SAssign rt mt y v Hp Hd im ss s ss' fuel Hsim Hc He).
+  - (* define m ...: the CONSTANT instruction does nothing at run time *)
+    destruct fuel as [|fuel]; [discriminate|]. assert (Hss : ss' = ss) by (injection He as H; symmetry; exact H). subst ss'.
+    cbn [c_stmt code_at] in Hc |- *. destruct Hc as [Hf _].
+    exists 1%nat, (advance s), []. split; [apply (estep1 im s _ _ _ Hf); reflexivity|].
+    split; [destruct Hsim; constructor; assumption|]. split; [reflexivity|]. split; [reflexivity|]. rewrite app_nil_r. reflexivity.
   - exact (sim_SPrint rt mt v im ss s ss' fuel Hs Hsim Hc He).
+  - (* print without a value: no code *)
+    destruct fuel as [|fuel]; [discriminate|]. assert (Hss : ss' = ss) by (injection He as H; symmetry; exact H). subst ss'.
+    exists 0%nat, s, []. split; [reflexivity|]. split; [exact Hsim|]. split; [cbn; lia|]. split; [reflexivity|]. rewrite app_nil_r. reflexivity.
   - exact (sim_SPrintln rt mt v im ss s ss' fuel Hs Hsim Hc He).
+  - (* println without a value: the line break *)
+    destruct fuel as [|fuel]; [discriminate|]. assert (Hss : ss' = s_emit ss [EvNewline]) by (injection He as H; symmetry; exact H). subst ss'.
+    cbn [c_stmt code_at] in Hc |- *. destruct Hc as [Hf _].
+    exists 1%nat, (advance s), [EvNewline]. split; [apply (estep1 im s _ _ _ Hf); reflexivity|].
+    split; [apply sim_emit; destruct Hsim; constructor; assumption|]. split; [reflexivity|]. split; [reflexivity|]. apply trace_emit.
 Qed.
 
 (* scripts: sequences of those statements *)
@@ -1126,8 +1140,11 @@ Proof.
     destruct (exec_ops rt mt fuel false sa false ops) as [[] sb| |]; cbn [sbind] in He; try discriminate. injection He as He _. auto.
   - rewrite exec_wait in He. destruct (do_wait ss) as [[] sa| |]; cbn [sbind] in He; try discriminate. injection He as He _. auto.
   - rewrite exec_assign in He. destruct (eval_rval rt mt fuel false ss v); cbn [sbind] in He; try discriminate. injection He as He _. auto.
+  - injection He as He _. auto.
   - rewrite exec_print in He. destruct (eval_rval rt mt fuel false ss v); cbn [sbind] in He; try discriminate. injection He as He _. auto.
+  - injection He as He _. auto.
   - rewrite exec_println in He. destruct (eval_rval rt mt fuel false ss v); cbn [sbind] in He; try discriminate. injection He as He _. auto.
+  - injection He as He _. auto.
 Qed.
 
 Theorem script_simulation p : forallb simple_atom p = true ->
@@ -1232,10 +1249,13 @@ Proof.
   - reflexivity.
   - apply andb_true_iff in Hs. destruct Hs as [Hp Hd].
     change (c_stmt rt mt false None (SAssign y v)) with (c_rval rt mt v (DVar y)). apply c_rval_no_routine; assumption.
+  - reflexivity.
   - change (c_stmt rt mt false None (SPrint (Some v))) with (c_rval rt mt v (DReg R_RESULT) ++ [I2 OC_OUT (PIoOp IO_REGISTER) (PReg R_RESULT); I1 OC_OUT (PIoOp IO_PRINT)]).
     rewrite forallb_app, (c_rval_no_routine v (DReg R_RESULT) Hs (plain_ok_result mt v Hs)). reflexivity.
+  - reflexivity.
   - change (c_stmt rt mt false None (SPrintln (Some v))) with (c_rval rt mt v (DReg R_RESULT) ++ [I2 OC_OUT (PIoOp IO_REGISTER) (PReg R_RESULT); I1 OC_OUT (PIoOp IO_PRINT); I1 OC_OUT (PIoOp IO_PRINT_END)]).
     rewrite forallb_app, (c_rval_no_routine v (DReg R_RESULT) Hs (plain_ok_result mt v Hs)). reflexivity.
+  - reflexivity.
 Qed.
 
 Lemma script_no_routine p : forallb (simple_atom mt) p = true -> forallb not_routine (flat_map (c_stmt rt mt false None) p) = true.
